@@ -97,6 +97,12 @@ theorem C03_orderMatchValidate_funds_channels (env : Env) (rules : Rules) (b : B
   rename_i st0 hv
   exact C03_accept_funds_channels env rules b best st0 hw hv
 
+/-- **Regenerated fact.** In `ParseRPCServerOrder` the counterparty order's channel type is assigned only by the four
+cases of the rpc channel-type switch (`Pool.Gen.Batch.rpcChanTypeTable`, which `parseTheir` interprets) – nothing
+overrides it afterwards, e.g. depending on the order version. -/
+theorem C03_channel_type_only_from_switch :
+    Pool.Gen.Batch.serverOrderChanTypeAssignments = Pool.Gen.Batch.rpcChanTypeTable.length := by decide
+
 /-- non-vacuity: the example proposal (p2wsh channel for the derived key, taproot channel for the sidecar
 recipient's key) meets the hypotheses … -/
 example : isOk (verify exEnv Rules.fixed exBatch 101) = true := by decide
